@@ -12,5 +12,6 @@ for id in "$@"; do
   out=$(./check "$id" --tier "${TIER:-quick}" 2>&1); code=$?
   echo "$out" > /tmp/try_last_$id.log
   echo "$id exit=$code $(echo "$out" | grep -c '^VIOLATION') violation line(s); $(echo "$out" | tail -1)"
+  rm -rf /tmp/try_replays_$id; [ -d replays/"$id" ] && cp -r replays/"$id" /tmp/try_replays_$id
   rm -rf replays/"$id"
 done
